@@ -122,7 +122,8 @@ def run (std pd items blank oracle start fuel : String) : Option String := do
     | .get (some i) => some s!"g{i}" | .get none => some "g-" | .put i => some s!"p{i}"
     | _ => none
   let scops := log.filterMap fun e => match e with
-    | .enter n => some s!"e{n}" | .exit => some "x" | .remove n => some s!"r{n}" | _ => none
+    | .enter n => some s!"e{n}" | .exit => some "x" | .remove n => some s!"r{n}"
+    | .rollback => some "b" | _ => none
   let ghosts := log.filterMap fun e => match e with
     | .ghost g => some (ghostName g) | _ => none
   let missing := log.filterMap fun e => match e with
